@@ -536,8 +536,13 @@ def generate(seed, tier):
                 return "tmset %s %s %s" % (o, name, h(v))
             if rng.random() < 0.5:
                 P = []
+                slow = rng.random() < 0.35      # a slowly mixing chain: nearly the identity / nearly reducible
                 for _r in range(n):
                     r = [rng.random() + 0.05 for _ in range(n)]
+                    if slow:
+                        eps = 10.0 ** (-rng.uniform(2, 7))
+                        r = [eps * (0.5 + rng.random()) for _ in range(n)]
+                        r[_r if rng.random() < 0.8 else rng.randrange(n)] = 1.0
                     if rng.random() < 0.05:
                         r[rng.randrange(n)] = 0.0          # a zero entry: theta = 0 or 1 is refused by the constraint
                     sm = (sum(r) or 1.0) * (1.0 if rng.random() < 0.95 else 1.01)   # not summing to one: refused
@@ -545,6 +550,8 @@ def generate(seed, tier):
                 return "tmsetP %s %s" % (o, " ".join(h(x) for x in P))
             w = rng.random()
             v = rng.choice([0.0, 1.0, 1.5, -0.1, 0.5]) if w < 0.1 else rng.uniform(0.05, 0.95)
+            if w > 0.8:
+                v = rng.choice([1 - 10.0 ** (-rng.uniform(2, 6)), 10.0 ** (-rng.uniform(2, 6))])
             name = "%d.theta%d" % (rng.randint(1, n), rng.randint(1, max(1, n - 1))) if rng.random() < 0.93 else rng.choice(["1.theta%d" % n, "%d.theta1" % (n + 1), "theta1"])
             return "tmset %s %s %s" % (o, name, h(v))
 
